@@ -248,7 +248,9 @@ func (r *ClientPeerRef) Send(ctx context.Context, msg []byte) (_ *signaling_rpc.
 
 			// Stream with remote was re-opened.
 			if sessionSeqno == nil || *sessionSeqno != *tkr.open {
-				txed = false
+				// the session was re-opened: a message we already queued stays queued (it is
+				// retransmitted by the tracker), so keep ownership of it; the checks below
+				// reset txed if the queue was cleared or holds another message.
 				sessionSeqno = tkr.open
 			}
 
